@@ -4,7 +4,7 @@ copy / match / arming sites (R2), confinement of writes to the target (R7),
 failure arms.
 """
 from ..flow import M1, NEG, Z, P1, POS, POSITIVE, NONNEG, NEGATIVE, TOP, mask_str
-from ..ir import strip, strip_transparent, show, callee_name, callee_field, const_value, walk, calls_in
+from ..ir import strip, strip_transparent, show, callee_name, callee_field, const_value, walk, calls_in, is_unsigned_type
 from ..program import rel, all_exprs, unique_defs, is_assign_op
 from .common import (FactRule, SymRule, GuardRule, GateRule, run_rule, call_name, calls_of, pstr, last_field, Lin,
                      lin, atom_cmp, origin_names, macro_invocations, node_containing, assigned_fields)
@@ -60,11 +60,14 @@ class ValidRule(GuardRule):
             if 'validate_chunk' in names and after & ~POSITIVE == 0:
                 ts = self.add_fact(ts, 'verdict-ok', ())
             if names & set(CMP_FUNCS) and after == Z:
-                ex = strip_transparent(expr)
-                if ex.k == 'call':
-                    args = [self.P(a) for a in ex.a[1:]]
-                    if any('digest' in a for a in args):
-                        ts = self.add_fact(ts, 'digest-equal', ())
+                # the comparison call itself, or a temporary holding its result (found through the origin tag)
+                uids = [o.split('@', 1)[1] for o in origins if '@' in o and o.split('@', 1)[0] in CMP_FUNCS]
+                for ex_ in all_exprs(ctx.fn):
+                    for c in calls_in(ex_):
+                        if str(c.uid) in uids:
+                            args = [self.P(a) for a in c.a[1:]]
+                            if any('digest' in a for a in args):
+                                ts = self.add_fact(ts, 'digest-equal', ())
         return ts
 
 
@@ -362,7 +365,7 @@ def arming_guard(ck, prog, config, clause):
         ('write_in_chunk', lambda rhs, ctx: rhs is not None and const_value(rhs) != 0, req),
         ('tgt_check', lambda rhs, ctx: rhs is not None and strip(rhs).k != 'null', req + ['tgt-clear']),
     ], vocab=('valid', 'comp_length', 'dl_chunk_data', 'start', 'digest', 'tgt_check', 'memcmp', 'set_chunk_valid'),
-        inline=False)
+        inline=True)
     run_rule(prog, fn, rule)
     ck.require(rule.checked >= 2, 'dl_write_range: arming stores (write_in_chunk, tgt_check) not found')
     byinst = {}
@@ -457,7 +460,9 @@ def chunk_loop(ck, prog, config, clause, fn_name, total_path, ops, seek_want=Non
     detail = 'no while loop over the chunk size'
     for lp in loops:
         c = strip_transparent(lp.e)
-        if not (c.k == 'bin' and c.op == '>' and const_value(c.a[1]) == 0 and strip(c.a[0]).k == 'var'):
+        if not (c.k == 'bin' and c.op in ('>', '!=') and const_value(c.a[1]) == 0 and strip(c.a[0]).k == 'var'):
+            continue
+        if c.op == '!=' and not is_unsigned_type(strip(c.a[0]).t, strip(c.a[0]).dt):
             continue
         rem = strip(c.a[0])
         # initial value of rem
